@@ -185,7 +185,12 @@ where
                 return None;
             }
             State::Parsing => {
-                self.increment_record();
+                // If the previous call failed (buffer limit or I/O error) while the
+                // current record was still incomplete, that record has not been
+                // returned yet: resume parsing it instead of advancing
+                if self.incomplete_pos.is_none() {
+                    self.increment_record();
+                }
             }
         };
 
